@@ -44,7 +44,10 @@ TECHNIQUE = "runtime monitoring: differential oracle (own FIRST/FOLLOW, Earley, 
 def make_case(rng):
     cfg_id = rng.randrange(len(llmon.TOKCFGS))
     cfg = llmon.TOKCFGS[cfg_id]
-    terms = rng.sample(cfg.terminals, min(len(cfg.terminals), rng.choice([3, 4, 4])))
+    n_terms = rng.choice([3, 4, 4])
+    if len(cfg.terminals) >= 8 and rng.random() < 0.6:
+        n_terms = rng.choice([7, 8, 9])      # room for groups of 6-7 alternatives behind one prefix
+    terms = rng.sample(cfg.terminals, min(len(cfg.terminals), n_terms))
     r = rng.random()
     if r < 0.4:
         if rng.random() < 0.4:
@@ -84,13 +87,20 @@ def run_case(ctx, mon, cfg_id, terms, prods, inputs_spec=None, rng=None):
     base_case = {"cfg": cfg_id, "terms": terms,
                  "prods": {k: [list(a) for a in v] for k, v in prods.items()}}
     parsers = {}
+    ctor_error = None
     for smart in (True, False):
         try:
             parsers[smart] = cfg.make_parser(prods, start, smart_factorization=smart)
         except AssertionError:
             ctx.count("ctor_assert(out of domain)")
-        except llparser.GrammarError:
+        except llparser.GrammarError as err:
             ctx.count("ctor_grammar_error(judged by C03)")
+            ctor_error = (smart, type(err).__name__, str(err)[:150])
+    if len(parsers) == 1 and ctor_error is not None:
+        # the grammar is fine for one factorization setting and rejected for the other
+        ctx.violation("grammar-rejected-for-one-factorization-setting-only",
+                      {"smart_factorization": ctor_error[0], "type": ctor_error[1], "msg": ctor_error[2]},
+                      dict(base_case, inputs=[]))
     if len(parsers) < 2:
         return None
     ctx.count("grammars")
